@@ -83,7 +83,7 @@ def check(run: Run) -> None:
                 run.ok("C13.R1", fi, f"{name} of a literal")
                 continue
             run.check(not bad, "C13.R1", fi, stmt_of(c), f"{name}: text derived from values is escaped", f"{name} parses text built from a value without Python literal escaping ({'; '.join(bad)[:200]}): quotes, backslashes or newlines in the value alter it or are parsed as code; this sink is not in the list of source-text sinks", "repr(value)", show(t)[:300])
-    run.floor("C13.R1", n_sinks, 7, "parser sinks in the package")
+    run.floor("C13.R1", n_sinks, 4, "parser sinks in the package")
 
     # ---------------- R4: the value embedded for a captured name is the callable's own binding at the time of the call
     run.rule("C13.R4", "captured values are read from a fresh table built from the callable's closure and module globals during the operator call (shared with C04.R3/R6)")
